@@ -298,6 +298,15 @@ def check_object(o, d, mon, label):
             return ("raises:%s" % type(e).__name__, "parameterised render raised %r although the inline render succeeded" % e, None)
     values = list(pz.values)
     mon.count("objects_compared")
+    # every wrapped value that may be parameterised must have become a placeholder: a get_value_sql call under a parameterizer
+    # is a value that was inlined instead (legitimate only for enums, '*' and wrappers created with allow_parametrize=False)
+    for ev in tree.value_events:
+        wv = ev[4]
+        mon.count("values_inlined_under_parameterizer_seen")
+        if (isinstance(wv, reg["ValueWrapper"]) and getattr(wv, "allow_parametrize", True) and not isinstance(ev[3], enum.Enum)
+                and not (isinstance(ev[3], str) and ev[3] == "*")):
+            return ("inlined-under-parameterizer:%s" % kind_of(ev[3]), "a %s holding %r was rendered inline (%s) although a parameterizer is active: %r" % (
+                ev[0], ev[3], ev[2][:40], sql_p[:260]), {"sql_p": sql_p, "values": [repr(v) for v in values]})
     mon.count("placeholders_" + DIALECT_OF[d], len(values))
     for v in values:
         mon.add("value_kinds", kind_of(v))
